@@ -145,7 +145,7 @@ def run(ctx) -> None:
     quick = ctx.tier == "quick"
     last_n = None
     fams = list(gen.SA_FAMILIES) + ["arbitrary_int", "arbitrary_float"]
-    ns = [2, 3, 3, 4, 4, 5, 5, 6, 6, 7] + ([8] if not quick or ctx.shard == 0 else [])
+    ns = [2, 3, 3, 4, 4, 5, 5, 6, 6, 7] + ([8] if not quick or ctx.shard == 0 else []) + ([9] if not quick and ctx.shard % 4 == 1 else [])
     jobs = 0
     while not ctx.out_of_time(6.0):
         n = rng.choice(ns)
@@ -156,6 +156,11 @@ def run(ctx) -> None:
             values, exact = [0.0] + [rng.uniform(-5, 5) for _ in range((1 << n) - 1)], False
         else:
             values, exact = gen.sa_game(rng, n, fam)
+        if rng.random() < 0.04:
+            boundcore.poison(ctx, n, sut.SA_COMPUTERS)
+        if rng.random() < 0.15:
+            k2 = rng.choice([-40, -20, 20, 40])
+            values = [v * 2.0 ** k2 for v in values]
         K = gen.random_knowledge_set(rng, n)
         kind = rng.choice(["fresh", "fresh", "walk", "dirty"]) if n <= 6 else "fresh"
         ops = boundcore.make_history(rng, n, K, kind)
